@@ -228,4 +228,545 @@ theorem stepG_agree (g1 g2 : Array Dec) (hg : GAgree g1 g2) (xsize n cacheBits i
             injection h with _ h; injection h with _ h; injection h with _ h
             rw [← h]; exact hb0
 
+
+/-- images that differ only in their (agreeing) groups -/
+structure ImgAgree (c1 c2 : Img) : Prop where
+  xsize : c1.xsize = c2.xsize
+  n : c1.n = c2.n
+  cacheBits : c1.cacheBits = c2.cacheBits
+  prefixBits : c1.prefixBits = c2.prefixBits
+  entropy : c1.entropy = c2.entropy
+  groups : GsAgree c1.groups c2.groups
+
+theorem group_agree (c1 c2 : Img) (h : ImgAgree c1 c2) (i : Nat) : GAgree (c1.group i) (c2.group i) := by
+  unfold Img.group
+  rw [h.prefixBits, h.xsize, h.entropy]
+  split
+  · exact h.groups 0
+  · exact h.groups _
+
+theorem step_agree (c1 c2 : Img) (h : ImgAgree c1 c2) (i : Nat) (rev : List Nat) (cache : Array Nat) (bits : List Nat) (hb : Bits01 bits) :
+    step c1 i rev cache bits = step c2 i rev cache bits ∧
+    ∀ i' rev' cache' bits', step c2 i rev cache bits = some (i', rev', cache', bits') → Bits01 bits' := by
+  unfold step
+  rw [h.xsize, h.n, h.cacheBits]
+  exact stepG_agree _ _ (group_agree c1 c2 h i) _ _ _ i rev cache bits hb
+
+theorem loop_agree (c1 c2 : Img) (h : ImgAgree c1 c2) : ∀ (fuel i : Nat) (rev : List Nat) (cache : Array Nat) (bits : List Nat),
+    Bits01 bits →
+    loop c1 fuel i rev cache bits = loop c2 fuel i rev cache bits ∧
+    ∀ rev' bits', loop c2 fuel i rev cache bits = some (rev', bits') → Bits01 bits' := by
+  intro fuel
+  induction fuel with
+  | zero =>
+    intro i rev cache bits hb
+    unfold loop
+    rw [h.n]
+    refine ⟨rfl, ?_⟩
+    intro rev' bits' hl
+    split at hl
+    · split at hl
+      · injection hl with hl; injection hl with _ h2; rw [← h2]; exact hb
+      · cases hl
+    · cases hl
+  | succ fuel ih =>
+    intro i rev cache bits hb
+    unfold loop
+    rw [h.n]
+    by_cases hi : i ≥ c2.n
+    · rw [if_pos hi, if_pos hi]
+      refine ⟨rfl, ?_⟩
+      intro rev' bits' hl
+      split at hl
+      · injection hl with hl; injection hl with _ h2; rw [← h2]; exact hb
+      · cases hl
+    · rw [if_neg hi, if_neg hi]
+      simp only
+      obtain ⟨e, hrest⟩ := step_agree c1 c2 h i rev cache bits hb
+      rw [e]
+      cases hs : step c2 i rev cache bits with
+      | none => exact ⟨rfl, fun _ _ hl => by cases hl⟩
+      | some r =>
+        obtain ⟨i', rev', cache', bits'⟩ := r
+        exact ih i' rev' cache' bits' (hrest i' rev' cache' bits' hs)
+
+theorem readCacheBits_rest (bits : List Nat) (cb : Nat) (rest : List Nat) (h : readCacheBits bits = some (cb, rest)) (hb : Bits01 bits) :
+    Bits01 rest ∧ cb ≤ 11 := by
+  unfold readCacheBits at h
+  cases h1 : readBitsL 1 bits with
+  | none => rw [h1] at h; cases h
+  | some r1 =>
+    obtain ⟨hc, b1⟩ := r1
+    have hb1 := readBitsL_rest 1 bits hc b1 h1 hb
+    rw [h1] at h
+    simp only at h
+    split at h
+    · cases h4 : readBitsL 4 b1 with
+      | none => rw [h4] at h; cases h
+      | some r4 =>
+        obtain ⟨v, b4⟩ := r4
+        rw [h4] at h
+        simp only at h
+        split at h
+        · cases h
+        · rename_i hv
+          injection h with h; injection h with e1 e2
+          subst e1 e2
+          exact ⟨readBitsL_rest 4 b1 v b4 h4 hb1, by omega⟩
+    · injection h with h; injection h with e1 e2
+      subst e1 e2
+      exact ⟨hb1, by decide⟩
+
+/-- equal outcome and a bit string left -/
+def Same {α : Type} (x y : Option (α × List Nat)) : Prop := x = y ∧ ∀ a r, y = some (a, r) → Bits01 r
+
+theorem readPixelsR_agree (rc1 rc2 : RC) (h : RCAgree rc1 rc2) (xsize ysize cacheBits prefixBits : Nat) (hc : cacheBits ≤ 11)
+    (entropy : Array Nat) (numGroups : Nat) (bits : List Nat) (hb : Bits01 bits) :
+    Same (readPixelsR rc1 xsize ysize cacheBits prefixBits entropy numGroups bits)
+      (readPixelsR rc2 xsize ysize cacheBits prefixBits entropy numGroups bits) := by
+  unfold readPixelsR
+  have hg := readGroupsR_agree rc1 rc2 h cacheBits hc numGroups #[] #[] bits rfl (fun k => by
+    have e : (#[] : Array (Array Dec)).getD k #[] = #[] := by simp [Array.getD]
+    rw [e]; exact gagree_empty) hb
+  cases h1 : readGroupsR rc1 cacheBits numGroups #[] bits with
+  | none =>
+    cases h2 : readGroupsR rc2 cacheBits numGroups #[] bits with
+    | none => exact ⟨rfl, fun _ _ hh => by cases hh⟩
+    | some r2 => rw [h1, h2] at hg; exact hg.elim
+  | some r1 =>
+    cases h2 : readGroupsR rc2 cacheBits numGroups #[] bits with
+    | none => rw [h1, h2] at hg; exact hg.elim
+    | some r2 =>
+      obtain ⟨G1, b1⟩ := r1
+      obtain ⟨G2, b2⟩ := r2
+      rw [h1, h2] at hg
+      obtain ⟨e, hb2, hG⟩ := hg
+      subst e
+      simp only
+      obtain ⟨el, hrest⟩ := loop_agree
+        { xsize := xsize, n := xsize * ysize, cacheBits := cacheBits, prefixBits := prefixBits, entropy := entropy, groups := G1 }
+        { xsize := xsize, n := xsize * ysize, cacheBits := cacheBits, prefixBits := prefixBits, entropy := entropy, groups := G2 }
+        ⟨rfl, rfl, rfl, rfl, rfl, hG⟩ (xsize * ysize) 0 [] (Array.replicate (if cacheBits = 0 then 0 else 2 ^ cacheBits) 0) b1 hb2
+      rw [el]
+      refine ⟨rfl, ?_⟩
+      intro a r hh
+      cases hl : loop { xsize := xsize, n := xsize * ysize, cacheBits := cacheBits, prefixBits := prefixBits, entropy := entropy, groups := G2 }
+          (xsize * ysize) 0 [] (Array.replicate (if cacheBits = 0 then 0 else 2 ^ cacheBits) 0) b1 with
+      | none => rw [hl] at hh; cases hh
+      | some rr =>
+        obtain ⟨rev', bits'⟩ := rr
+        rw [hl] at hh
+        injection hh with hh; injection hh with _ e2
+        rw [← e2]
+        exact hrest rev' bits' hl
+
+theorem readSubR_agree (rc1 rc2 : RC) (h : RCAgree rc1 rc2) (xsize ysize : Nat) (bits : List Nat) (hb : Bits01 bits) :
+    Same (readSubR rc1 xsize ysize bits) (readSubR rc2 xsize ysize bits) := by
+  unfold readSubR
+  cases hc : readCacheBits bits with
+  | none => exact ⟨rfl, fun _ _ hh => by cases hh⟩
+  | some r =>
+    obtain ⟨cb, b1⟩ := r
+    obtain ⟨hb1, hcb⟩ := readCacheBits_rest bits cb b1 hc hb
+    exact readPixelsR_agree rc1 rc2 h xsize ysize cb 0 hcb #[] 1 b1 hb1
+
+
+theorem same_none {α : Type} : Same (none : Option (α × List Nat)) none := ⟨rfl, fun _ _ hh => by cases hh⟩
+
+theorem readMainR_agree (rc1 rc2 : RC) (h : RCAgree rc1 rc2) (xsize ysize : Nat) (bits : List Nat) (hb : Bits01 bits) :
+    Same (readMainR rc1 xsize ysize bits) (readMainR rc2 xsize ysize bits) := by
+  unfold readMainR
+  cases hc : readCacheBits bits with
+  | none => exact same_none
+  | some r =>
+    obtain ⟨cb, b1⟩ := r
+    obtain ⟨hb1, hcb⟩ := readCacheBits_rest bits cb b1 hc hb
+    simp only
+    cases hm : readBitsL 1 b1 with
+    | none => exact same_none
+    | some rm =>
+      obtain ⟨hasMeta, b2⟩ := rm
+      have hb2 := readBitsL_rest 1 b1 hasMeta b2 hm hb1
+      simp only
+      by_cases hmeta : hasMeta = 1
+      · rw [if_pos hmeta, if_pos hmeta]
+        cases hp : readBitsL 3 b2 with
+        | none => exact same_none
+        | some rp =>
+          obtain ⟨pb, b3⟩ := rp
+          have hb3 := readBitsL_rest 3 b2 pb b3 hp hb2
+          simp only
+          obtain ⟨es, hs⟩ := readSubR_agree rc1 rc2 h (VP8L.subSize xsize (pb + 2)) (VP8L.subSize ysize (pb + 2)) b3 hb3
+          rw [es]
+          cases hsub : readSubR rc2 (VP8L.subSize xsize (pb + 2)) (VP8L.subSize ysize (pb + 2)) b3 with
+          | none => exact same_none
+          | some rs =>
+            obtain ⟨img, b4⟩ := rs
+            exact readPixelsR_agree rc1 rc2 h xsize ysize cb (pb + 2) hcb _ _ b4 (hs img b4 hsub)
+      · rw [if_neg hmeta, if_neg hmeta]
+        exact readPixelsR_agree rc1 rc2 h xsize ysize cb 0 hcb #[] 1 b2 hb2
+
+theorem readTransformsR_agree (rc1 rc2 : RC) (h : RCAgree rc1 rc2) (hh : Nat) : ∀ (fuel xsize : Nat) (seen : List Nat) (ts : List T)
+    (bits : List Nat), Bits01 bits →
+    readTransformsR rc1 hh fuel xsize seen ts bits = readTransformsR rc2 hh fuel xsize seen ts bits ∧
+    ∀ x t r, readTransformsR rc2 hh fuel xsize seen ts bits = some (x, t, r) → Bits01 r := by
+  intro fuel
+  induction fuel with
+  | zero => intro xsize seen ts bits _; exact ⟨rfl, fun _ _ _ hx => by cases hx⟩
+  | succ fuel ih =>
+    intro xsize seen ts bits hb
+    unfold readTransformsR
+    cases h1 : readBitsL 1 bits with
+    | none => exact ⟨rfl, fun _ _ _ hx => by cases hx⟩
+    | some r1 =>
+      obtain ⟨present, b1⟩ := r1
+      have hb1 := readBitsL_rest 1 bits present b1 h1 hb
+      simp only
+      by_cases hp : present = 0
+      · rw [if_pos hp, if_pos hp]
+        refine ⟨rfl, ?_⟩
+        intro x t r hx
+        injection hx with hx; injection hx with _ hx; injection hx with _ hx
+        rw [← hx]; exact hb1
+      · rw [if_neg hp, if_neg hp]
+        cases h2 : readBitsL 2 b1 with
+        | none => exact ⟨rfl, fun _ _ _ hx => by cases hx⟩
+        | some r2 =>
+          obtain ⟨ty, b2⟩ := r2
+          have hb2 := readBitsL_rest 2 b1 ty b2 h2 hb1
+          simp only
+          by_cases hseen : seen.contains ty = true
+          · rw [if_pos hseen, if_pos hseen]; exact ⟨rfl, fun _ _ _ hx => by cases hx⟩
+          · rw [if_neg hseen, if_neg hseen]
+            by_cases h01 : ty = 0 ∨ ty = 1
+            · rw [if_pos h01, if_pos h01]
+              cases h3 : readBitsL 3 b2 with
+              | none => exact ⟨rfl, fun _ _ _ hx => by cases hx⟩
+              | some r3 =>
+                obtain ⟨sb, b3⟩ := r3
+                have hb3 := readBitsL_rest 3 b2 sb b3 h3 hb2
+                simp only
+                obtain ⟨es, hs⟩ := readSubR_agree rc1 rc2 h (VP8L.subSize xsize (sb + 2)) (VP8L.subSize hh (sb + 2)) b3 hb3
+                rw [es]
+                cases hsub : readSubR rc2 (VP8L.subSize xsize (sb + 2)) (VP8L.subSize hh (sb + 2)) b3 with
+                | none => exact ⟨rfl, fun _ _ _ hx => by cases hx⟩
+                | some rs =>
+                  obtain ⟨img, b4⟩ := rs
+                  exact ih _ _ _ b4 (hs img b4 hsub)
+            · rw [if_neg h01, if_neg h01]
+              by_cases h2' : ty = 2
+              · rw [if_pos h2', if_pos h2']
+                exact ih _ _ _ b2 hb2
+              · rw [if_neg h2', if_neg h2']
+                cases h8 : readBitsL 8 b2 with
+                | none => exact ⟨rfl, fun _ _ _ hx => by cases hx⟩
+                | some r8 =>
+                  obtain ⟨n1, b3⟩ := r8
+                  have hb3 := readBitsL_rest 8 b2 n1 b3 h8 hb2
+                  simp only
+                  obtain ⟨es, hs⟩ := readSubR_agree rc1 rc2 h (n1 + 1) 1 b3 hb3
+                  rw [es]
+                  cases hsub : readSubR rc2 (n1 + 1) 1 b3 with
+                  | none => exact ⟨rfl, fun _ _ _ hx => by cases hx⟩
+                  | some rs =>
+                    obtain ⟨tab, b4⟩ := rs
+                    exact ih _ _ _ b4 (hs tab b4 hsub)
+
+/-- **congruence**: code readers that agree on every request decode every stream alike -/
+theorem decodeBitsR_agree (rc1 rc2 : RC) (h : RCAgree rc1 rc2) (bits : List Nat) (hb : Bits01 bits) :
+    decodeBitsR rc1 bits = decodeBitsR rc2 bits := by
+  unfold decodeBitsR
+  cases h8 : readBitsL 8 bits with
+  | none => rfl
+  | some r8 =>
+    obtain ⟨sig, b1⟩ := r8
+    have hb1 := readBitsL_rest 8 bits sig b1 h8 hb
+    simp only
+    by_cases hsig : sig ≠ 0x2f
+    · rw [if_pos hsig, if_pos hsig]
+    · rw [if_neg hsig, if_neg hsig]
+      cases hw : readBitsL 14 b1 with
+      | none => rfl
+      | some rw' =>
+        obtain ⟨w1, b2⟩ := rw'
+        have hb2 := readBitsL_rest 14 b1 w1 b2 hw hb1
+        simp only
+        cases hh : readBitsL 14 b2 with
+        | none => rfl
+        | some rh =>
+          obtain ⟨h1, b3⟩ := rh
+          have hb3 := readBitsL_rest 14 b2 h1 b3 hh hb2
+          simp only
+          cases ha : readBitsL 1 b3 with
+          | none => rfl
+          | some ra =>
+            obtain ⟨al, b4⟩ := ra
+            have hb4 := readBitsL_rest 1 b3 al b4 ha hb3
+            simp only
+            cases hv : readBitsL 3 b4 with
+            | none => rfl
+            | some rv =>
+              obtain ⟨ver, b5⟩ := rv
+              have hb5 := readBitsL_rest 3 b4 ver b5 hv hb4
+              simp only
+              by_cases hver : ver ≠ 0
+              · rw [if_pos hver, if_pos hver]
+              · rw [if_neg hver, if_neg hver]
+                obtain ⟨et, ht⟩ := readTransformsR_agree rc1 rc2 h (h1 + 1) 5 (w1 + 1) [] [] b5 hb5
+                rw [et]
+                cases htr : readTransformsR rc2 (h1 + 1) 5 (w1 + 1) [] [] b5 with
+                | none => rfl
+                | some rt =>
+                  obtain ⟨xsize, ts, b6⟩ := rt
+                  simp only
+                  rw [(readMainR_agree rc1 rc2 h xsize (h1 + 1) b6 (ht xsize ts b6 htr)).1]
+
+
+/-! ### the two instances -/
+
+/-- what `ReadCode` leaves is a bit string -/
+theorem readCodeL_rest (a : Nat) (bits lens rest : List Nat) (h : readCodeL a bits = some (lens, rest)) (hb : Bits01 bits) : Bits01 rest := by
+  unfold readCodeL at h
+  cases h1 : readBitsL 1 bits with
+  | none => rw [h1] at h; cases h
+  | some r1 =>
+    obtain ⟨simple, b1⟩ := r1
+    have hb1 := readBitsL_rest 1 bits simple b1 h1 hb
+    rw [h1] at h
+    simp only at h
+    by_cases hs : simple = 1
+    · rw [if_pos hs] at h
+      cases h2 : readBitsL 1 b1 with
+      | none => rw [h2] at h; cases h
+      | some r2 =>
+        obtain ⟨n1, b2⟩ := r2
+        have hb2 := readBitsL_rest 1 b1 n1 b2 h2 hb1
+        rw [h2] at h
+        simp only at h
+        cases h3 : readBitsL 1 b2 with
+        | none => rw [h3] at h; cases h
+        | some r3 =>
+          obtain ⟨f8, b3⟩ := r3
+          have hb3 := readBitsL_rest 1 b2 f8 b3 h3 hb2
+          rw [h3] at h
+          simp only at h
+          cases h4 : readBitsL (if f8 = 1 then 8 else 1) b3 with
+          | none => rw [h4] at h; cases h
+          | some r4 =>
+            obtain ⟨s0, b4⟩ := r4
+            have hb4 := readBitsL_rest _ b3 s0 b4 h4 hb3
+            rw [h4] at h
+            simp only at h
+            split at h
+            · cases h
+            · split at h
+              · injection h with h; injection h with _ e; rw [← e]; exact hb4
+              · cases h5 : readBitsL 8 b4 with
+                | none => rw [h5] at h; cases h
+                | some r5 =>
+                  obtain ⟨s1, b5⟩ := r5
+                  rw [h5] at h
+                  simp only at h
+                  split at h
+                  · cases h
+                  · injection h with h; injection h with _ e; rw [← e]
+                    exact readBitsL_rest 8 b4 s1 b5 h5 hb4
+    · rw [if_neg hs] at h
+      cases h2 : readBitsL 4 b1 with
+      | none => rw [h2] at h; cases h
+      | some r2 =>
+        obtain ⟨n4, b2⟩ := r2
+        have hb2 := readBitsL_rest 4 b1 n4 b2 h2 hb1
+        rw [h2] at h
+        simp only at h
+        cases h3 : readClLens (List.take (4 + n4) clOrder) (List.replicate 19 0) b2 with
+        | none => rw [h3] at h; cases h
+        | some r3 =>
+          obtain ⟨cl, b3⟩ := r3
+          obtain ⟨hb3, _, _⟩ := readClLens_rest _ _ _ _ _ h3 hb2
+          rw [h3] at h
+          simp only at h
+          split at h
+          · cases h
+          · cases h4 : readBitsL 1 b3 with
+            | none => rw [h4] at h; cases h
+            | some r4 =>
+              obtain ⟨useMax, b4⟩ := r4
+              have hb4 := readBitsL_rest 1 b3 useMax b4 h4 hb3
+              rw [h4] at h
+              simp only at h
+              -- the bits after the `max_symbol` field
+              have hmax : ∀ (m : Nat) (bm : List Nat),
+                  (if useMax = 1 then
+                    match readBitsL 3 b4 with
+                    | none => none
+                    | some (n3, bits) =>
+                      match readBitsL (2 + 2 * n3) bits with
+                      | none => none
+                      | some (ms, bits) => if 2 + ms > a then none else some (2 + ms, bits)
+                   else some (a, b4)) = some (m, bm) → Bits01 bm := by
+                intro m bm hm
+                split at hm
+                · cases h5 : readBitsL 3 b4 with
+                  | none => rw [h5] at hm; cases hm
+                  | some r5 =>
+                    obtain ⟨n3, b5⟩ := r5
+                    have hb5 := readBitsL_rest 3 b4 n3 b5 h5 hb4
+                    rw [h5] at hm
+                    simp only at hm
+                    cases h6 : readBitsL (2 + 2 * n3) b5 with
+                    | none => rw [h6] at hm; cases hm
+                    | some r6 =>
+                      obtain ⟨ms, b6⟩ := r6
+                      rw [h6] at hm
+                      simp only at hm
+                      split at hm
+                      · cases hm
+                      · injection hm with hm; injection hm with _ e; rw [← e]
+                        exact readBitsL_rest _ b5 ms b6 h6 hb5
+                · injection hm with hm; injection hm with _ e; rw [← e]; exact hb4
+              generalize hgm : (if useMax = 1 then
+                    match readBitsL 3 b4 with
+                    | none => none
+                    | some (n3, bits) =>
+                      match readBitsL (2 + 2 * n3) bits with
+                      | none => none
+                      | some (ms, bits) => if 2 + ms > a then none else some (2 + ms, bits)
+                   else some (a, b4)) = rm at h hmax
+              cases rm with
+              | none => cases h
+              | some mm =>
+                obtain ⟨m, bm⟩ := mm
+                have hbm := hmax m bm rfl
+                simp only at h
+                cases h7 : readLens a cl m 8 (a + 1) [] bm with
+                | none => rw [h7] at h; cases h
+                | some r7 =>
+                  obtain ⟨ls, b7⟩ := r7
+                  rw [h7] at h
+                  simp only at h
+                  split at h
+                  · injection h with h; injection h with _ e; rw [← e]
+                    exact (readLens_props a cl (a + 1) m 8 [] bm ls b7 h7 hbm (by intro l hl; cases hl) (by decide) (by simp)).2.2
+                  · cases h
+
+theorem readSym_rest (t : Huff.Built) (bs : List Nat) (s : Nat) (r : List Nat) (h : Huff.readSym t bs = some (s, r)) (hb : Bits01 bs) :
+    Bits01 r := by
+  unfold Huff.readSym at h
+  cases t with
+  | err => cases h
+  | single z => injection h with h; injection h with _ e; rw [← e]; exact hb
+  | ok ht =>
+    simp only at h
+    cases hl : Huff.look ht (Huff.peek16 bs) with
+    | none => rw [hl] at h; cases h
+    | some p =>
+      obtain ⟨s', n⟩ := p
+      rw [hl] at h
+      simp only at h
+      split at h
+      · cases h
+      · injection h with h; injection h with _ e; rw [← e]; exact bits01_drop bs n hb
+
+/-- **the crate's code reader and `HuffmanTree` agree with the specification's entropy layer** on
+    every alphabet of the format and every bit string (from `read_code_is_spec`) -/
+theorem rc_agree : RCAgree crateRC specRC := by
+  intro a bits h2 h5000 hb
+  have hag := read_code_is_spec a h2 h5000 bits hb
+  unfold crateRC specRC
+  cases h1 : CodeRead.readCode a bits with
+  | none =>
+    cases h2' : readCodeL a bits with
+    | none => trivial
+    | some r2 => rw [h1, h2'] at hag; exact hag.elim
+  | some r1 =>
+    cases h2' : readCodeL a bits with
+    | none => rw [h1, h2'] at hag; exact hag.elim
+    | some r2 =>
+      obtain ⟨t, r⟩ := r1
+      obtain ⟨lens, r'⟩ := r2
+      rw [h1, h2'] at hag
+      obtain ⟨e, hT⟩ := hag
+      subst e
+      refine ⟨rfl, readCodeL_rest a bits lens r h2' hb, ?_⟩
+      intro bs hbs
+      refine ⟨hT bs hbs, ?_⟩
+      intro s rest hd
+      exact (decodeSymbol_sound lens bs s rest hd hbs).2
+
+
+/-! ### with the specification's own entropy layer the parametrised stream is `VP8LP.decodeBits` -/
+
+theorem readGroupR_spec : ∀ (alph : List Nat) (acc : Array Dec) (bits : List Nat),
+    readGroupR specRC alph acc bits = readGroup specDec alph acc bits := by
+  intro alph
+  induction alph with
+  | nil => intro _ _; rfl
+  | cons a alph ih =>
+    intro acc bits
+    unfold readGroupR readGroup specRC
+    cases readCodeL a bits with
+    | none => rfl
+    | some r => exact ih _ _
+
+theorem readGroupsR_spec (cacheBits : Nat) : ∀ (k : Nat) (acc : Array (Array Dec)) (bits : List Nat),
+    readGroupsR specRC cacheBits k acc bits = readGroups specDec cacheBits k acc bits := by
+  intro k
+  induction k with
+  | zero => intro _ _; rfl
+  | succ k ih =>
+    intro acc bits
+    unfold readGroupsR readGroups
+    rw [readGroupR_spec]
+    cases readGroup specDec (alphabets cacheBits) #[] bits with
+    | none => rfl
+    | some r => exact ih _ _
+
+theorem readPixelsR_spec (xsize ysize cacheBits prefixBits : Nat) (entropy : Array Nat) (numGroups : Nat) (bits : List Nat) :
+    readPixelsR specRC xsize ysize cacheBits prefixBits entropy numGroups bits =
+      readPixels specDec xsize ysize cacheBits prefixBits entropy numGroups bits := by
+  unfold readPixelsR readPixels
+  rw [readGroupsR_spec]
+  rfl
+
+theorem readSubR_spec (xsize ysize : Nat) (bits : List Nat) : readSubR specRC xsize ysize bits = readSub specDec xsize ysize bits := by
+  unfold readSubR readSub
+  cases readCacheBits bits with
+  | none => rfl
+  | some r => exact readPixelsR_spec _ _ _ _ _ _ _
+
+theorem readMainR_spec (xsize ysize : Nat) (bits : List Nat) : readMainR specRC xsize ysize bits = readMain specDec xsize ysize bits := by
+  unfold readMainR readMain
+  simp only [readSubR_spec, readPixelsR_spec]
+  rfl
+
+theorem readTransformsR_spec (hh : Nat) : ∀ (fuel xsize : Nat) (seen : List Nat) (ts : List T) (bits : List Nat),
+    readTransformsR specRC hh fuel xsize seen ts bits = readTransforms specDec hh fuel xsize seen ts bits := by
+  intro fuel
+  induction fuel with
+  | zero => intro _ _ _ _; rfl
+  | succ fuel ih =>
+    intro xsize seen ts bits
+    unfold readTransformsR readTransforms
+    simp only [readSubR_spec, ih]
+    rfl
+
+theorem spec_instance (bits : List Nat) : decodeBitsR specRC bits = decodeBits specDec bits := by
+  unfold decodeBitsR decodeBits
+  simp only [readTransformsR_spec, readMainR_spec]
+  rfl
+
+theorem bitsOfBytes_01 (bytes : List Nat) : Bits01 (bitsOfBytes bytes) := by
+  intro b hb
+  unfold bitsOfBytes at hb
+  obtain ⟨x, _, hx⟩ := List.mem_flatMap.mp hb
+  obtain ⟨k, _, rfl⟩ := List.mem_map.mp hx
+  exact Nat.mod_lt _ (by decide)
+
+/-- **the crate's entropy layer inside the specification's stream structure decodes every byte
+    string exactly like the specification** -/
+theorem decodeCrate_is_spec (bytes : List Nat) : decodeCrate bytes = VP8LP.decode bytes := by
+  unfold decodeCrate VP8LP.decode
+  rw [decodeBitsR_agree crateRC specRC rc_agree _ (bitsOfBytes_01 bytes), spec_instance]
+
 end LStreamProof
